@@ -65,7 +65,13 @@ def _two_renames(b):
     return False
 
 
-SELECT = {"rename_chain3": _rename_chain, "flatten_two_gens": _flatten_two_gens, "two_renames": _two_renames}
+def _rename_and_nested(b):
+    """a rename, a generation in a nested history, and a read command at the end"""
+    return (any(o["op"] == "rename" for o in b) and any(o["op"] == "create" and list(o["R"]) for o in b)
+            and b[-1]["op"] in ("verify", "diff"))
+
+
+SELECT = {"rename_and_nested": _rename_and_nested, "rename_chain3": _rename_chain, "flatten_two_gens": _flatten_two_gens, "two_renames": _two_renames}
 
 
 def history_campaign(out, pid, plans, pclauses, antecedent, seed, mclauses=None, line_filter=None):
@@ -519,6 +525,7 @@ generic(
     quick=[dict(scope="chain2", mode="exhaustive", maxops=6, limit=1200, mc_maxgens=3, invariants=INV_C17),
            dict(scope="chain3", mode="exhaustive", maxops=8, maxgens=5, select="rename_chain3", mc=False),
            dict(scope="ren", mode="exhaustive", maxops=4, maxgens=2, select="two_renames", mc=False, tag="r"),
+           dict(scope="rennest", mode="exhaustive", maxops=6, maxgens=5, select="rename_and_nested", mc_maxgens=5, invariants=INV_C17),
            dict(scope="chain", mode="simulate", num=60, depth=11, limit=500, mc_maxgens=2, invariants=INV_C17),
            dict(scope="ren", mode="simulate", num=60, depth=10, limit=500, mc_maxgens=1, invariants=INV_C17)],
     thorough=[dict(scope="chain2", mode="exhaustive", maxops=7, mc_maxgens=3, invariants=INV_C17),
@@ -645,7 +652,7 @@ def c15(tier, seed):
     for d in diags[:3]:
         out.machinery.append("trace validation stopped early: %s" % d["tail"][-1500:])
     from . import signatures
-    pclauses = ["P_C15_OldIntact", "P_C15_ChainLists", "P_C15_AllOrNothing", "P_C15_Loadable", "P_C08_ChildFirst"]
+    pclauses = ["P_C15_OldIntact", "P_C15_ChainLists", "P_C15_AllOrNothing", "P_C15_Listed", "P_C15_Loadable", "P_C08_ChildFirst"]
     distinct = set()
     drift = collections.Counter()
     counts = collections.Counter()
